@@ -184,8 +184,10 @@ func (tr *FnCtx) finish() {
 				parts = append(parts, implies(r.guard, tr.evalClause(env, cl)))
 				cases = append(cases, fmt.Sprintf("return in block %d", r.block.Index))
 			}
-			o := &Obligation{Name: tr.Short + "/ensures[" + cl.Label + "]", Fn: tr.Short, Kind: "ensures", Prefix: len(tr.cmds), Goal: and(parts...), Src: cl.Src, Ctx: tr, Cases: cases}
-			tr.obls = append(tr.obls, o)
+			for _, pg := range splitAnd(and(parts...)) {
+				o := &Obligation{Name: tr.Short + "/ensures[" + cl.Label + "]", Fn: tr.Short, Kind: "ensures", Prefix: len(tr.cmds), Goal: pg, Src: cl.Src, Ctx: tr, Cases: cases}
+				tr.obls = append(tr.obls, o)
+			}
 		}
 	}
 	// lock protocol: balanced
@@ -1107,7 +1109,7 @@ func (tr *FnCtx) applyContract(st *State, f *ssa.Function, spec *FuncSpec, metho
 	}
 	// results
 	res := &Val{T: resT}
-	post := &Env{tr: tr, vars: map[string]*Val{}, st: st, old: pre, pkg: pkg, allocOld: tr.cur(pre, compAlloc)}
+	post := &Env{tr: tr, vars: map[string]*Val{}, st: st, old: pre, pkg: pkg, allocOld: tr.cur(pre, compAlloc), assuming: true}
 	for kk, v := range vars {
 		post.vars[kk] = v
 	}
